@@ -273,8 +273,8 @@ func exploreHarness(p *Program, h *ssa.Function, cfg Config) *HarnessResult {
 			if len(res.Witnesses)+witPending >= cfg.Witnesses {
 				return false
 			}
-			// spread over the exploration: paths 1,2,4,8,... and every 61st
-			if witSeq&(witSeq-1) == 0 || witSeq%61 == 0 {
+			// spread over the exploration: the first six paths, then 8,16,32,... and every 61st
+			if witSeq <= 6 || witSeq&(witSeq-1) == 0 || witSeq%61 == 0 {
 				witPending++
 				e.witReq = true
 				return true
